@@ -36,6 +36,13 @@ def real_size(tier, seed):
                     "conns": [{"stream": [{"t": "http", "v": "ok"}] + frames}],
                     "connect_kwargs": {"ping_rate": 0, "close_timeout": None},
                     "transport": {"tls": tls, "rec": 16384, "short": 700 if tls else None, "bursts": [1000, 1000], "dts": [1, 3]}})
+    # the handshake reply arriving in the same burst (and the same read) as more than 16 KiB of frames
+    for tls in (False, True):
+        frames = [{"t": "f", "op": 2, "fin": 1, "blob": 20000, "blobkind": "bin"}] + [dict(SMALL[i % 2]) for i in range(20)]
+        out.append({"url": "wss://example.com/" if tls else "ws://example.com/",
+                    "conns": [{"stream": [{"t": "http", "v": "ok"}] + frames}],
+                    "connect_kwargs": {"ping_rate": 0, "close_timeout": None},
+                    "transport": {"tls": tls, "rec": 16384, "short": None, "bursts": [], "dts": [], "reply_shares_burst": True}})
     return out
 
 
